@@ -18,6 +18,6 @@ body = ["<!-- seedtable:begin -->",
 p = os.path.join(V, "DESIGN.md")
 s = open(p).read()
 if "<!-- seedtable:begin -->" in s:
-    s = re.sub(r"<!-- seedtable:begin -->.*<!-- seedtable:end -->", "\n".join(body), s, flags=re.S)
+    s = re.sub(r"<!-- seedtable:begin -->.*<!-- seedtable:end -->", lambda _: "\n".join(body), s, flags=re.S)
     open(p, "w").write(s)
 print(len(rows), "rows;", sum(1 for r in rows if "MISSED" in r), "missed")
